@@ -673,7 +673,7 @@ fn run_for_panic<D: Store + Mk>(parsed: &ParseResult, ntok: usize, hk: HostK, ma
     };
     a.m.shadow_on = false;
     a.m.max_instr = usize::MAX;
-    a.m.max_data = 4_000_000;
+    a.m.max_data = a.d0 + 60_000;
     let unit = a.m.add_unit().ok()?;
     start(&mut a.m, *a.build.jump_index(), unit).ok()?;
     let mut n = 0u64;
@@ -744,7 +744,7 @@ fn judge_c07(src: &str, kind: &str, max_steps: u64, acc: &mut Acc) {
 
 /// inputs that are always part of the corpus: witnesses of past and known findings, seeds of
 /// interesting regions
-pub const FIXED: [&str; 24] = [
+pub const FIXED: [&str; 27] = [
     "1 ;; 2",
     "1 ;;",
     "5 + @x",
@@ -769,6 +769,9 @@ pub const FIXED: [&str; 24] = [
     "1 && 2 || 3 ^^ 4",
     "5 [1 \n\n 2]",
     "f` 5 `g` 6 `h",
+    "3 ; (4..2) ~# (1 2)",
+    "(\"hello\" <~ 3..0) == \"x\"",
+    "(1..3) ~# (1 2)",
 ];
 
 pub const BOUNDARY_LITS: [&str; 40] = [
@@ -842,7 +845,7 @@ pub fn run(ctx: &Ctx, which: Which) -> (Acc, String, bool) {
     let nb = BOUNDARY_LITS.len() as u64;
     let boundary_total = if which == Which::C07 { nb * nb * (BOUNDARY_OPS.len() as u64) / ctx.pick(4, 1) + nb * 13 } else { 0 };
     let soup_total: u64 = ctx.pick(40_000, 1_500_000);
-    let fam_sizes: Vec<usize> = if ctx.quick() { vec![8, 64, 512, 4096] } else { vec![8, 64, 512, 4096, 32768] };
+    let fam_sizes: Vec<usize> = if ctx.quick() { vec![8, 64, 512, 4096] } else { vec![8, 64, 512, 4096, 16384] };
     let fam_total = (corpus::FAMILIES.len() * fam_sizes.len()) as u64;
     let seed = ctx.seed;
     let steps = ctx.pick(2_000u64, 10_000u64);
@@ -904,13 +907,20 @@ pub fn run(ctx: &Ctx, which: Which) -> (Acc, String, bool) {
             (s, "soup".into())
         } else if i < ex_total + boundary_total + soup_total + fam_total {
             let j = (i - ex_total - boundary_total - soup_total) as usize;
-            let (f, sz) = (j / fam_sizes.len(), fam_sizes[j % fam_sizes.len()]);
+            let (f, mut sz) = (j / fam_sizes.len(), fam_sizes[j % fam_sizes.len()]);
+            // families with one build root per repetition cost quadratic time in build (polynomial, but minutes)
+            if matches!(corpus::FAMILIES[f], "else-chain" | "nested-expressions" | "suffix-chain") {
+                sz = sz.min(2048);
+            }
             acc.nontrivial += 1;
             (corpus::family(f, sz), format!("family:{}x{}", corpus::FAMILIES[f], sz))
         } else {
             acc.nontrivial += 1;
             (FIXED[(i - ex_total - boundary_total - soup_total - fam_total) as usize].to_string(), "fixed".to_string())
         };
+        if ctx.only_case.is_some() {
+            println!("case input ({}): {:?}", kind, src);
+        }
         match which {
             Which::C03 => judge_c03(&src, &kind, acc),
             Which::C04 => judge_c04(&src, &kind, acc),
